@@ -10,13 +10,13 @@ set -u
 BIN="$1"
 ROOT=$(cd "$(dirname "$0")/.." && pwd)
 SEED=${VERIF_SEED:-0}
-RUNS=${VERIF_FUZZ_RUNS:-400000}
+RUNS=${VERIF_FUZZ_RUNS:-60000}
 JOBS=${VERIF_FUZZ_JOBS:-16}
 WORK="$ROOT/fuzz/work"
 rm -rf "$WORK"; mkdir -p "$WORK/corpus" "$WORK/artifacts" "$WORK/logs"
 export CARGO_NET_OFFLINE=true
 t0=$(date +%s)
-if ! (cd "$ROOT/fuzz" && RUSTFLAGS="--cfg roto_verif" cargo +nightly fuzz build --fuzz-dir "$ROOT/fuzz" compile_total >"$WORK/logs/build.log" 2>&1); then
+if ! (cd "$ROOT/fuzz" && RUSTFLAGS="--cfg roto_verif" cargo +nightly fuzz build --sanitizer none --fuzz-dir "$ROOT/fuzz" compile_total >"$WORK/logs/build.log" 2>&1); then
     echo "INCONCLUSIVE fuzz target build failed (see $WORK/logs/build.log)"; tail -5 "$WORK/logs/build.log"; exit 2
 fi
 FZ="$ROOT/fuzz/target/x86_64-unknown-linux-gnu/release/compile_total"
